@@ -742,7 +742,9 @@ def abortBy (p : Plan) (s : RfState) : RfState :=
   initSync1 := M.pure ()
   initAsync := fun s =>
     if (plan c).phase == .asyncInit then (abortBy (plan c) s, .raise .cancelled) else (s, .next ())
-  initSync2 := fun s => if (plan c).phase == .initFailed then (s, .raise .failure) else (s, .next ())
+  initSync2 := fun s =>
+    if (plan c).phase == .initFailed then (s, .raise .failure)
+    else ({ s with storage := storageAtStop c.blocks (plan c) }, .next ())   -- the states are saved after the initialisation
   initDoneSet := M.pure ()
   simulate := fun s =>
     if (plan c).phase == .evalFailed then (s, .raise .failure)
@@ -753,8 +755,9 @@ def abortBy (p : Plan) (s : RfState) : RfState :=
   storageSet _ := true
   isPersistence _ := true
   saveState k := fun s =>
-    ({ s with storage := saveOne c.blocks (consumePending (plan c)) s.storage k }, .next ())
-  stampStopTime := M.pure ()
+    ({ s with storage := (saveOneF c.storageFault c.blocks (consumePending (plan c)) s.storage k).1 },
+     if (saveOneF c.storageFault c.blocks (consumePending (plan c)) s.storage k).2 then .raise .failure else .next ())
+  stampStopTime := fun s => (s, if c.storageFault = .none then .next () else .raise .failure)
   stopSblocks blocks := fun s =>
     if s.pending && !c.oa.isEmpty then
       ({ s with trace := s.trace ++ c.oa.map Ev.stop, timers := (plan c).timers, endTime := (plan c).termTime },
@@ -808,16 +811,19 @@ theorem rf_startLoop (c : Cfg) : ∀ (l : List Blk) (i : Nat) (s : RfState), c.b
 
 theorem rf_saveLoop (c : Cfg) : ∀ (l : List Nat) (s : RfState),
     TrL.runForever_for2 (rfPrims c) l s =
-      ({ s with storage := l.foldl (saveOne c.blocks (consumePending (plan c))) s.storage }, .next ()) := by
+      ({ s with storage := (saveAllF c.storageFault c.blocks (consumePending (plan c)) l s.storage).1 },
+       if (saveAllF c.storageFault c.blocks (consumePending (plan c)) l s.storage).2 then .raise .failure
+       else .next ()) := by
   intro l
   induction l with
-  | nil => intro s; simp [TrL.runForever_for2, pure_apply]
+  | nil => intro s; simp [TrL.runForever_for2, pure_apply, saveAllF]
   | cons k ks ih =>
     intro s
-    unfold TrL.runForever_for2
+    unfold TrL.runForever_for2 saveAllF
     simp only [bind_apply]
-    rw [ih]
-    simp
+    cases h : (saveOneF c.storageFault c.blocks (consumePending (plan c)) s.storage k).2 with
+    | true => simp
+    | false => simp [ih]
 
 theorem startLoop_all : ∀ (l : List Blk) (i : Nat), (startLoop i l).2.2 = false →
     (startLoop i l).2.1 = List.range' i l.length := by
@@ -861,7 +867,8 @@ theorem plan_timers_nil (c : Cfg) (h : (plan c).started = []) : (plan c).timers 
 theorem run_more (c : Cfg) (r : Result) (h : runForever c = some r) (hb : c.cause.before = false) :
     r.startOk = ((plan c).phase != .startFailed && (plan c).phase != .afterStart) ∧
     r.error = some (if (plan c).isError then .failure else .cancelled) ∧
-    r.storage = saveStep c.blocks (consumePending (plan c)) (storage0 c.blocks) := by
+    r.storage = saveStep c.storageFault c.blocks (consumePending (plan c))
+      (storageAtStop c.blocks (consumePending (plan c))) := by
   unfold runForever at h
   simp only [hb, Bool.false_eq_true, if_false] at h
   unfold finish at h
@@ -872,8 +879,11 @@ theorem run_more (c : Cfg) (r : Result) (h : runForever c = some r) (hb : c.caus
     subst h
     exact ⟨rfl, rfl, rfl⟩
 
-theorem saveStep_eq (bs : List Blk) (p : Plan) (st : List Nat) :
-    saveStep bs p st = if (p.phase != .startFailed && p.phase != .afterStart) then p.started.foldl (saveOne bs p) st else st := rfl
+theorem saveStep_eq (f : SFault) (bs : List Blk) (p : Plan) (st : List Nat) :
+    saveStep f bs p st = if (p.phase != .startFailed && p.phase != .afterStart) then (saveAllF f bs p p.started st).1 else st := rfl
+
+theorem storageAtStop_eq (bs : List Blk) (p : Plan) :
+    storageAtStop bs (consumePending p) = storageAtStop bs p := rfl
 
 /-- the translated `run_forever`, with the try block left where the model's plan says, does what the
     model's `runForever` does: same events, same started set, `start_ok`, recorded error, storage,
@@ -913,7 +923,8 @@ theorem runForever_spec (c : Cfg) (r : Result) (h : runForever c = some r) (hne 
     rcases plan_phase_cases c with ⟨hsf, hph, hie⟩ | ⟨hsf, hph⟩ | ⟨hsf, hph⟩ | ⟨hsf, hph, hie⟩ | ⟨hsf, hph, hie⟩ | ⟨hsf, hph⟩
     · -- a start() raised
       have hputs : (plan c).puts = [] := by rw [plan_puts_eq, hph]; simp [putBlocksOf]
-      have htt0 : (plan c).termTime = 0 := by rw [htt, hph]
+      have htt' : (plan c).termTime = 0 := by rw [htt, hph]
+      have hsas : storageAtStop c.blocks (plan c) = storage0 c.blocks := by simp [storageAtStop, hph]
       by_cases hst : (startLoop 0 c.blocks).2.1 = []
       · have hst' : (plan c).started = [] := hst
         have hoa : c.oa = [] := by
@@ -921,59 +932,84 @@ theorem runForever_spec (c : Cfg) (r : Result) (h : runForever c = some r) (hne 
         have hos : c.os = [] := by
           have := sp.permS; rw [hst'] at this; exact List.Perm.eq_nil (by simpa [setS] using this)
         simp [rfInit, hb, hne, bind_apply, get_apply, pure_apply, raise_apply, tryExcept_apply, ite_apply',
-          hrange, hsl, hsf, hph, hie, sp.trace, sp.started, sp.timers, sp.endTime, hso, herr, hsto,
-          plan_startEvs, plan_started, saveStep_eq, hst, hputs, htt0, hoa, hos, plan_timers_nil c hst',
+          hrange, hsl, hsf, hph, sp.trace, sp.started, sp.timers, sp.endTime, hso, herr, hsto,
+          plan_startEvs, plan_started, saveStep_eq, storageAtStop_eq, abortBy, rf_saveLoop, hputs, htt', hie, hst, hsas, hoa, hos, plan_timers_nil c hst',
           Lifecycle.stopSblocks, awaitJobs, sortJobs, sortEnds, stopSyncAll]
         exact ⟨_, _, ⟨rfl, rfl⟩, rfl, rfl, rfl, rfl, rfl, rfl, rfl, rfl, rfl⟩
       · simp [rfInit, hb, hne, bind_apply, get_apply, pure_apply, raise_apply, tryExcept_apply, ite_apply',
-          hrange, hsl, hsf, hph, hie, sp.trace, sp.started, sp.timers, sp.endTime, hso, herr, hsto,
-          plan_startEvs, plan_started, saveStep_eq, hst, hputs, htt0]
+          hrange, hsl, hsf, hph, sp.trace, sp.started, sp.timers, sp.endTime, hso, herr, hsto,
+          plan_startEvs, plan_started, saveStep_eq, storageAtStop_eq, abortBy, rf_saveLoop, hputs, htt', hie, hst, hsas]
         exact ⟨_, _, ⟨rfl, rfl⟩, rfl, rfl, rfl, rfl, rfl, rfl, rfl, rfl, rfl⟩
     · -- the request arrives while run_forever yields after the start loop
       have hputs : (plan c).puts = [] := by rw [plan_puts_eq, hph]; simp [putBlocksOf]
       have htt' : (plan c).termTime = 0 := by rw [htt, hph]
+      have hsas : storageAtStop c.blocks (plan c) = storage0 c.blocks := by simp [storageAtStop, hph]
       cases hie : (plan c).isError <;>
         (simp [rfInit, hb, hne, bind_apply, get_apply, pure_apply, raise_apply, tryExcept_apply, ite_apply',
           hrange, hsl, hsf, hph, sp.trace, sp.started, sp.timers, sp.endTime, hso, herr, hsto,
-          plan_startEvs, plan_started, saveStep_eq, hall hsf, abortBy, rf_saveLoop, hputs, htt', hie]
+          plan_startEvs, plan_started, saveStep_eq, storageAtStop_eq, abortBy, rf_saveLoop, hputs, htt', hall hsf, hsas, hie]
          first
            | exact ⟨_, _, ⟨rfl, rfl⟩, rfl, rfl, rfl, rfl, rfl, rfl, rfl, rfl, rfl⟩
            | exact ⟨_, _, ⟨rfl, rfl⟩, rfl, rfl, rfl, rfl, by decide, rfl, rfl, rfl, rfl⟩)
     · -- … during the asynchronous initialisation
       have hputs : (plan c).puts = [] := by rw [plan_puts_eq, hph]; simp [putBlocksOf]
       have htt' : (plan c).termTime = tx := by rw [htt, hph]
+      have hsas : storageAtStop c.blocks (plan c) = storage0 c.blocks := by simp [storageAtStop, hph]
+      have hab_or := fun (st : List Nat) => Bool.eq_false_or_eq_true
+        (saveAllF c.storageFault c.blocks (consumePending (plan c)) (startLoop 0 c.blocks).2.1 st).2
+      cases hsn : c.storageFault <;>
+      rcases hab_or (storage0 c.blocks) with hab | hab <;>
+      (try rw [hsn] at hab) <;>
       cases hie : (plan c).isError <;>
         (simp [rfInit, hb, hne, bind_apply, get_apply, pure_apply, raise_apply, tryExcept_apply, ite_apply',
           hrange, hsl, hsf, hph, sp.trace, sp.started, sp.timers, sp.endTime, hso, herr, hsto,
-          plan_startEvs, plan_started, saveStep_eq, hall hsf, abortBy, rf_saveLoop, hputs, htt', hie]
+          plan_startEvs, plan_started, saveStep_eq, storageAtStop_eq, abortBy, rf_saveLoop, hputs, htt', hall hsf, hsas, hie, hab, hsn]
          first
            | exact ⟨_, _, ⟨rfl, rfl⟩, rfl, rfl, rfl, rfl, rfl, rfl, rfl, rfl, rfl⟩
            | exact ⟨_, _, ⟨rfl, rfl⟩, rfl, rfl, rfl, rfl, by decide, rfl, rfl, rfl, rfl⟩)
     · -- the second initialisation pass fails
       have hputs : (plan c).puts = [] := by rw [plan_puts_eq, hph]; simp [putBlocksOf]
       have htt' : (plan c).termTime = ty := by rw [htt, hph]
-      simp [rfInit, hb, hne, bind_apply, get_apply, pure_apply, raise_apply, tryExcept_apply, ite_apply',
+      have hsas : storageAtStop c.blocks (plan c) = storage0 c.blocks := by simp [storageAtStop, hph]
+      have hab_or := fun (st : List Nat) => Bool.eq_false_or_eq_true
+        (saveAllF c.storageFault c.blocks (consumePending (plan c)) (startLoop 0 c.blocks).2.1 st).2
+      cases hsn : c.storageFault <;>
+      rcases hab_or (storage0 c.blocks) with hab | hab <;>
+      (try rw [hsn] at hab) <;>
+      
+        (simp [rfInit, hb, hne, bind_apply, get_apply, pure_apply, raise_apply, tryExcept_apply, ite_apply',
           hrange, hsl, hsf, hph, sp.trace, sp.started, sp.timers, sp.endTime, hso, herr, hsto,
-          plan_startEvs, plan_started, saveStep_eq, hall hsf, abortBy, rf_saveLoop, hputs, htt', hie]
-      first
-        | exact ⟨_, _, ⟨rfl, rfl⟩, rfl, rfl, rfl, rfl, rfl, rfl, rfl, rfl, rfl⟩
-        | exact ⟨_, _, ⟨rfl, rfl⟩, rfl, rfl, rfl, rfl, by decide, rfl, rfl, rfl, rfl⟩
+          plan_startEvs, plan_started, saveStep_eq, storageAtStop_eq, abortBy, rf_saveLoop, hputs, htt', hall hsf, hsas, hie, hab, hsn]
+         first
+           | exact ⟨_, _, ⟨rfl, rfl⟩, rfl, rfl, rfl, rfl, rfl, rfl, rfl, rfl, rfl⟩
+           | exact ⟨_, _, ⟨rfl, rfl⟩, rfl, rfl, rfl, rfl, by decide, rfl, rfl, rfl, rfl⟩)
     · -- the first evaluation fails
       have hputs : (plan c).puts = [] := by rw [plan_puts_eq, hph]; simp [putBlocksOf]
       have htt' : (plan c).termTime = ty := by rw [htt, hph]
-      simp [rfInit, hb, hne, bind_apply, get_apply, pure_apply, raise_apply, tryExcept_apply, ite_apply',
+      have hab_or := fun (st : List Nat) => Bool.eq_false_or_eq_true
+        (saveAllF c.storageFault c.blocks (consumePending (plan c)) (startLoop 0 c.blocks).2.1 st).2
+      cases hsn : c.storageFault <;>
+      rcases hab_or (storageAtStop c.blocks (plan c)) with hab | hab <;>
+      (try rw [hsn] at hab) <;>
+      
+        (simp [rfInit, hb, hne, bind_apply, get_apply, pure_apply, raise_apply, tryExcept_apply, ite_apply',
           hrange, hsl, hsf, hph, sp.trace, sp.started, sp.timers, sp.endTime, hso, herr, hsto,
-          plan_startEvs, plan_started, saveStep_eq, hall hsf, abortBy, rf_saveLoop, hputs, htt', hie]
-      first
-        | exact ⟨_, _, ⟨rfl, rfl⟩, rfl, rfl, rfl, rfl, rfl, rfl, rfl, rfl, rfl⟩
-        | exact ⟨_, _, ⟨rfl, rfl⟩, rfl, rfl, rfl, rfl, by decide, rfl, rfl, rfl, rfl⟩
+          plan_startEvs, plan_started, saveStep_eq, storageAtStop_eq, abortBy, rf_saveLoop, hputs, htt', hall hsf, hie, hab, hsn]
+         first
+           | exact ⟨_, _, ⟨rfl, rfl⟩, rfl, rfl, rfl, rfl, rfl, rfl, rfl, rfl, rfl⟩
+           | exact ⟨_, _, ⟨rfl, rfl⟩, rfl, rfl, rfl, rfl, by decide, rfl, rfl, rfl, rfl⟩)
     · -- the circuit runs until the request (possibly made inside the simulation task, with an exception after it)
       have hputs : (plan c).puts = (plan c).puts := rfl
       have htt' : (plan c).termTime = tx := by rw [htt, hph]
+      have hab_or := fun (st : List Nat) => Bool.eq_false_or_eq_true
+        (saveAllF c.storageFault c.blocks (consumePending (plan c)) (startLoop 0 c.blocks).2.1 st).2
+      cases hsn : c.storageFault <;>
+      rcases hab_or (storageAtStop c.blocks (plan c)) with hab | hab <;>
+      (try rw [hsn] at hab) <;>
       cases hie : (plan c).isError <;> cases hpe : (plan c).pendingCancel <;>
         (simp [rfInit, hb, hne, bind_apply, get_apply, pure_apply, raise_apply, tryExcept_apply, ite_apply',
           hrange, hsl, hsf, hph, sp.trace, sp.started, sp.timers, sp.endTime, hso, herr, hsto,
-          plan_startEvs, plan_started, saveStep_eq, hall hsf, abortBy, rf_saveLoop, hputs, htt', hie, hpe]
+          plan_startEvs, plan_started, saveStep_eq, storageAtStop_eq, abortBy, rf_saveLoop, hputs, htt', hall hsf, hie, hpe, hab, hsn]
          first
            | exact ⟨_, _, ⟨rfl, rfl⟩, rfl, rfl, rfl, rfl, rfl, rfl, rfl, rfl, rfl⟩
            | exact ⟨_, _, ⟨rfl, rfl⟩, rfl, rfl, rfl, rfl, by decide, rfl, rfl, rfl, rfl⟩)
@@ -986,7 +1022,7 @@ position relative to the `try:` of run_forever matters, so the tie also says wha
 skeleton does when one of them fails. -/
 
 inductive RfFault where
-  | testEager | newQueue | newInitDone | checkPersistentData | resolve | finalize | stamp
+  | testEager | newQueue | newInitDone | checkPersistentData | resolve | finalize
   deriving DecidableEq, Repr
 
 def failIf (b : Bool) : M RfState Err Unit Unit := fun s => if b then (s, .raise .failure) else (s, .next ())
@@ -998,8 +1034,7 @@ def failIf (b : Bool) : M RfState Err Unit Unit := fun s => if b then (s, .raise
     newInitDone := failIf (decide (f = .newInitDone))
     checkPersistentData := failIf (decide (f = .checkPersistentData))
     resolve := failIf (decide (f = .resolve))
-    finalize := failIf (decide (f = .finalize))
-    stampStopTime := failIf (decide (f = .stamp)) }
+    finalize := failIf (decide (f = .finalize)) }
 
 theorem failIf_true (s : RfState) : failIf true s = (s, .raise .failure) := rfl
 theorem failIf_false (s : RfState) : failIf false s = (s, .next ()) := rfl
@@ -1040,48 +1075,6 @@ theorem eager_failure_spec (c : Cfg) (s : RfState) (hs : s.simtask = false) :
     TrL.runForever (rfPrimsF c .testEager) s = (s, .raise .failure) := by
   unfold TrL.runForever
   simp [hs, bind_apply, get_apply, failIf_true]
-
-/-- the write of the stop time sits between the save step and `_stop_sblocks`, outside any `try`:
-    if it fails, the exception escapes run_forever right there – the states were saved, and no block
-    is stopped (the trace ends with the events of the running circuit) -/
-theorem stamp_failure_spec (c : Cfg) (r : Result) (h : runForever c = some r) (hb : c.cause.before = false)
-    (hne : c.blocks.isEmpty = false)
-    (hok : (plan c).phase ≠ .startFailed ∧ (plan c).phase ≠ .afterStart) :
-    ∃ s', TrL.runForever (rfPrimsF c .stamp) (rfInit c) = (s', .raise .failure) ∧
-      s'.trace = (plan c).startEvs ++ (plan c).puts ∧ s'.started = r.started ∧ s'.storage = r.storage ∧
-      s'.startOk = true := by
-  obtain ⟨_, _, hsto⟩ := run_more c r h hb
-  have sp := run_spec c r h hb
-  have hrange : List.range c.blocks.length = List.range' 0 c.blocks.length := List.range_eq_range'
-  have hsl := fun s => rf_startLoop c c.blocks 0 s (by simp)
-  have hall : (startLoop 0 c.blocks).2.2 = false → (startLoop 0 c.blocks).2.1 ≠ [] := by
-    intro hf
-    rw [startLoop_all _ _ hf]
-    cases hbl : c.blocks with
-    | nil => simp [hbl] at hne
-    | cons _ _ => simp [List.range'_succ]
-  unfold TrL.runForever
-  rcases plan_phase_cases c with ⟨_, hph, _⟩ | ⟨_, hph⟩ | ⟨hsf, hph⟩ | ⟨hsf, hph, hie⟩ | ⟨hsf, hph, hie⟩ | ⟨hsf, hph⟩
-  · exact absurd hph hok.1
-  · exact absurd hph hok.2
-  · have hputs : (plan c).puts = [] := by rw [plan_puts_eq, hph]; simp [putBlocksOf]
-    cases hie : (plan c).isError <;>
-      (simp [rfInit, hb, hne, bind_apply, get_apply, pure_apply, raise_apply, tryExcept_apply, ite_apply',
-          hrange, rfF_startLoop, rfF_saveLoop, hsl, hsf, hph, hsto, sp.started,
-          plan_startEvs, plan_started, saveStep_eq, hall hsf, abortBy, rf_saveLoop, hputs, failIf_true, failIf_false, hie])
-  · have hputs : (plan c).puts = [] := by rw [plan_puts_eq, hph]; simp [putBlocksOf]
-    simp [rfInit, hb, hne, bind_apply, get_apply, pure_apply, raise_apply, tryExcept_apply, ite_apply',
-          hrange, rfF_startLoop, rfF_saveLoop, hsl, hsf, hph, hsto, sp.started,
-          plan_startEvs, plan_started, saveStep_eq, hall hsf, abortBy, rf_saveLoop, hputs, failIf_true, failIf_false, hie]
-  · have hputs : (plan c).puts = [] := by rw [plan_puts_eq, hph]; simp [putBlocksOf]
-    simp [rfInit, hb, hne, bind_apply, get_apply, pure_apply, raise_apply, tryExcept_apply, ite_apply',
-          hrange, rfF_startLoop, rfF_saveLoop, hsl, hsf, hph, hsto, sp.started,
-          plan_startEvs, plan_started, saveStep_eq, hall hsf, abortBy, rf_saveLoop, hputs, failIf_true, failIf_false, hie]
-  · have hputs : (plan c).puts = (plan c).puts := rfl
-    cases hie : (plan c).isError <;> cases hpe : (plan c).pendingCancel <;>
-      (simp [rfInit, hb, hne, bind_apply, get_apply, pure_apply, raise_apply, tryExcept_apply, ite_apply',
-          hrange, rfF_startLoop, rfF_saveLoop, hsl, hsf, hph, hsto, sp.started,
-          plan_startEvs, plan_started, saveStep_eq, hall hsf, abortBy, rf_saveLoop, hputs, failIf_true, failIf_false, hie, hpe])
 
 /-! ### `_init_sblocks_async` -/
 
